@@ -141,7 +141,7 @@ func (m *ErrorMessage) UnmarshalBinary(data []byte) error {
 		return fmt.Errorf("failed to decode compact length")
 	}
 
-	if len(data) < bytesRead+int(length) {
+	if length > uint64(len(data)-bytesRead) {
 		return fmt.Errorf("data too short for error message")
 	}
 
@@ -270,6 +270,9 @@ func (m *PeerInfo) UnmarshalBinary(data []byte) error {
 	// skip the already read compact length bytes
 	buffer.Next(bytesRead)
 
+	if nameLength > uint64(buffer.Len()) {
+		return fmt.Errorf("app name length %d exceeds the remaining %d bytes", nameLength, buffer.Len())
+	}
 	nameBuffer := make([]byte, nameLength)
 	_, err = io.ReadFull(buffer, nameBuffer)
 	if err != nil {
@@ -386,12 +389,21 @@ func (m *Message) ReadFrom(reader io.Reader) (int64, error) {
 	}
 	totalBytesRead += 1
 
-	payload := make([]byte, encodedMessageLength-1)
-	bytesRead, err := io.ReadFull(reader, payload)
-	totalBytesRead += int64(bytesRead)
+	if encodedMessageLength == 0 {
+		// the length covers the type byte: 0 is malformed (and would wrap to 2^32-1 below)
+		return totalBytesRead, fmt.Errorf("invalid message length 0")
+	}
+	// Read the payload as it arrives instead of allocating the declared length up front.
+	var payloadBuf bytes.Buffer
+	bytesRead, err := io.CopyN(&payloadBuf, reader, int64(encodedMessageLength-1))
+	totalBytesRead += bytesRead
 	if err != nil {
+		if err == io.EOF {
+			err = io.ErrUnexpectedEOF
+		}
 		return totalBytesRead, err
 	}
+	payload := payloadBuf.Bytes()
 
 	var unmarshaler encoding.BinaryUnmarshaler
 
